@@ -459,21 +459,27 @@ func proxyPushUp(w *world, mc bool) stepResult {
 	return stepResult{effective: ok, async: true}
 }
 
+// backend0Noticed tells whether the forwarder has noticed that its connection to backend 0 is gone.
+func backend0Noticed(t *pxy.Topo) bool {
+	if t.FwdKind != "multiclient" {
+		return !t.FB[0].A.Health()
+	}
+	all := true
+	t.F.RangeSession(func(s erpc.Session) bool {
+		if s.RemoteAddr().String() == t.Srv[0].Addr() && s.Health() {
+			all = false
+		}
+		return true
+	})
+	return all
+}
+
 // killBackend0 makes backend 0 of the topology unreachable for the forwarder and waits until the forwarder noticed.
 func killBackend0(w *world, t *pxy.Topo) string {
 	how := "multiclient-down"
 	if t.FwdKind == "multiclient" {
 		t.Srv[0].Down()
-		bed.WaitUntil(5*time.Second, func() bool {
-			all := true
-			t.F.RangeSession(func(s erpc.Session) bool {
-				if s.RemoteAddr().String() == t.Srv[0].Addr() && s.Health() {
-					all = false
-				}
-				return true
-			})
-			return all
-		})
+		bed.WaitUntil(5*time.Second, func() bool { return backend0Noticed(t) })
 		return how
 	}
 	switch w.r.Intn(4) {
@@ -490,7 +496,7 @@ func killBackend0(w *world, t *pxy.Topo) string {
 		how = "sever-reset"
 		t.FB[0].CA.Sever(true)
 	}
-	bed.WaitUntil(5*time.Second, func() bool { return !t.FB[0].A.Health() })
+	bed.WaitUntil(5*time.Second, func() bool { return backend0Noticed(t) })
 	return how
 }
 
@@ -516,7 +522,7 @@ func proxyPushDown(w *world, mc bool) stepResult {
 	st := t.CP.A.Push("/a/note", []byte("x"))
 	ok := st.OK() && pxy.WaitCount(func() bool { return atomic.LoadInt64(&t.Fw[0].PushDone) > done0 }, watchdog)
 	code := atomic.LoadInt32(&t.Fw[0].LastPushCode)
-	pxy.Settle(2*time.Second, 3, nil)
+	pxy.Settle(2*time.Second, 2, nil) // the plug-in finishes the push after the forwarder returned
 	w.dropTopo(mc)
 	return stepResult{effective: ok && code != 0, async: true, note: fmt.Sprintf("%s: forwarder push returned code %d", how, code)}
 }
@@ -565,11 +571,12 @@ func proxyPushCutMid(w *world, mc bool) stepResult {
 	} else {
 		t.FB[0].CA.Sever(w.r.Intn(2) == 0)
 	}
-	// a second push right after the cut: the forwarder may or may not have noticed yet
+	// a second push once the forwarder has noticed the cut
+	bed.WaitUntil(5*time.Second, func() bool { return backend0Noticed(t) })
 	st2 := t.CP.A.Push("/a/note", []byte("y"))
 	pxy.WaitCount(func() bool { return atomic.LoadInt64(&t.Fw[0].PushDone) >= done0+2 }, watchdog)
 	close(p.Park)
-	pxy.Settle(2*time.Second, 3, nil)
+	pxy.Settle(2*time.Second, 2, nil)
 	w.dropTopo(mc)
 	return stepResult{effective: ok && st2.OK(), async: true}
 }
@@ -718,9 +725,6 @@ func overloadQPS(w *world, push bool) stepResult {
 		if s == "" && t.Code == 500 && strings.Contains(t.Msg, "overload") {
 			rejected++
 		}
-	}
-	if push {
-		pxy.Settle(2*time.Second, 3, nil)
 	}
 	drop(l)
 	go srv.Close()
@@ -898,7 +902,7 @@ func stepHeartbeatWait(w *world) stepResult {
 	}
 	w.hbWaited = true
 	n0 := [2]int64{atomic.LoadInt64(&w.hbCount[0].n), atomic.LoadInt64(&w.hbCount[1].n)}
-	ok := bed.WaitUntil(6*time.Second, func() bool {
+	ok := bed.WaitUntil(8*time.Second, func() bool {
 		return atomic.LoadInt64(&w.hbCount[0].n) > n0[0] && atomic.LoadInt64(&w.hbCount[1].n) > n0[1]
 	})
 	return stepResult{effective: ok, async: true}
@@ -972,6 +976,13 @@ func snapshot() map[string]protos.Triple {
 	// exported package-level statuses of the auth plug-in are shared between connections as well
 	m["auth.MultiSendErr"] = protos.StatusTriple(auth.MultiSendErr)
 	m["auth.MultiRecvErr"] = protos.StatusTriple(auth.MultiRecvErr)
+	return m
+}
+
+func statusObjects() map[string]*erpc.Status {
+	m := erpc.VerifSentinels()
+	m["auth.MultiSendErr"] = auth.MultiSendErr
+	m["auth.MultiRecvErr"] = auth.MultiRecvErr
 	return m
 }
 
@@ -1115,6 +1126,9 @@ type monitor struct {
 	probeSeq  map[string]int
 	reported  map[string]bool
 	pdefs     []probeDef
+	sent0     map[string]protos.Triple // start-of-process values
+	probe0    map[string]probeObs
+	dirty     bool
 	changeSeq int    // number of sentinel changes detected so far
 	changeBy  string // class of the operation after which the latest change was detected
 }
@@ -1151,6 +1165,38 @@ func (m *monitor) sentinels(hid string, desc interface{}, class string, stepIdx 
 				map[string]interface{}{"sentinel": k, "before": m.sent[k], "after": cur[k], "operation_class": class, "step_index": stepIdx, "step_note": note, "history_so_far": history})
 		}
 		m.sent[k] = cur[k]
+		m.dirty = true
+	}
+}
+
+// restore puts the start-of-process values back through the public setters (after the probes have shown the
+// caller-visible effect), so that the same change made by another operation class later in this process is
+// seen as well. If that does not work the renewed references stay.
+func (m *monitor) restore() {
+	if !m.dirty {
+		return
+	}
+	m.dirty = false
+	objs := statusObjects()
+	for k, want := range m.sent0 {
+		if st := objs[k]; st != nil && protos.StatusTriple(st) != want {
+			st.SetCode(want.Code)
+			st.SetMsg(want.Msg)
+			st.SetCause(want.Cause)
+		}
+	}
+	now := snapshot()
+	for k, want := range m.sent0 {
+		if now[k] != want {
+			m.sent = now
+			core.Add("sentinel_reference_renewed", 1)
+			return
+		}
+	}
+	core.Add("sentinels_restored_after_report", 1)
+	m.sent = now
+	for k, v := range m.probe0 {
+		m.probe[k], m.probeSeq[k] = v, m.changeSeq
 	}
 }
 
@@ -1188,6 +1234,7 @@ func (m *monitor) check(w *world, hid string, desc interface{}, stepClass string
 		}
 		m.sentinels(hid, desc, "probe:"+pd.name, stepIdx, "", history)
 	}
+	m.restore()
 }
 
 type discard struct{}
@@ -1215,6 +1262,7 @@ func main() {
 		*batch = rp.Batch // a history depends on everything the process did before: the whole batch is re-run
 	}
 	var tStep, tSettle, tCheck time.Duration
+	perClass := map[string]time.Duration{}
 	nHist, nSteps := 100, 40
 	if *tier == "thorough" {
 		nHist, nSteps = 3000, 100
@@ -1226,7 +1274,7 @@ func main() {
 	}
 
 	// start-of-process reference: sentinels first, then the probes in a pristine process
-	m := &monitor{sent: snapshot(), probe: map[string]probeObs{}, probeSeq: map[string]int{}, reported: map[string]bool{}, pdefs: probes()}
+	m := &monitor{sent: snapshot(), sent0: snapshot(), probe: map[string]probeObs{}, probeSeq: map[string]int{}, reported: map[string]bool{}, pdefs: probes()}
 	for k, v := range m.sent {
 		core.Distinct("sentinels", k)
 		_ = v
@@ -1248,12 +1296,13 @@ func main() {
 		core.Result(core.R{ID: "baseline", Verdict: core.Held, Sig: "baseline", Nontrivial: true})
 	}
 	s0, p0 := map[string]protos.Triple{}, map[string]probeObs{}
-	for k, v := range m.sent {
+	for k, v := range m.sent0 {
 		s0[k] = v
 	}
 	for k, v := range m.probe {
 		p0[k] = v
 	}
+	m.probe0 = p0
 	core.Sample(map[string]interface{}{"sentinels_at_start": s0, "probes_at_start": p0})
 
 	for h := 0; h < nHist; h++ {
@@ -1285,6 +1334,7 @@ func main() {
 			t0 := time.Now()
 			res := d.fn(w)
 			tStep += time.Since(t0)
+			perClass[d.class] += time.Since(t0)
 			core.Add("evaluations", 1)
 			core.Add("steps/"+d.class, 1)
 			if res.effective {
@@ -1300,7 +1350,7 @@ func main() {
 			}
 			t0 = time.Now()
 			if res.async {
-				pxy.Settle(3*time.Second, 3, nil)
+				pxy.Settle(3*time.Second, 2, nil)
 			}
 			tSettle += time.Since(t0)
 			t0 = time.Now()
@@ -1318,6 +1368,9 @@ func main() {
 		}
 	}
 	if os.Getenv("C15_DEBUG") != "" {
+		for k, v := range perClass {
+			fmt.Fprintf(os.Stderr, "classtime %8.1fms %s\n", float64(v)/1e6, k)
+		}
 		fmt.Fprintf(os.Stderr, "time: steps %v settle %v check %v goroutines %d\n", tStep, tSettle, tCheck, runtime.NumGoroutine())
 	}
 	core.Add("heartbeats_observed", atomic.LoadInt64(&w.hbCount[0].n)+atomic.LoadInt64(&w.hbCount[1].n))
